@@ -72,6 +72,11 @@ fn engine_shard(id: &str, tier: &str, seed: u64, replay: Option<&serde_json::Val
             let e2 = checks_c03::shard_run("C18", tier, seed, replay, shard);
             out.merge(e2);
         }
+        if id == "C01" && replay.is_none() && out.found.is_empty() && shard.k == 5 % shard.n {
+            if let Some(f) = checks_e1::bulk_chain(if tier == "thorough" { 70_000 } else { 10_500 }, seed, &mut out.cov) {
+                out.found.push(f);
+            }
+        }
         if id == "C07" && replay.is_none() && out.found.is_empty() {
             // accepted history must also survive overlapping requests (uncontrolled stress)
             use stress::Mode;
